@@ -217,6 +217,12 @@ def build_harness(scratch, pkg, access=(), extra_overlay=None, kit=True, tags="v
         for f in os.listdir(os.path.join(HARNESS, "kit")):
             if f.endswith(".go"):
                 replace[os.path.join(REPO, "internal/verifh/kit", f)] = os.path.join(HARNESS, "kit", f)
+    for extra in ("runkit",):
+        d = os.path.join(HARNESS, extra)
+        if os.path.isdir(d):
+            for f in os.listdir(d):
+                if f.endswith(".go"):
+                    replace[os.path.join(REPO, "internal/verifh", extra, f)] = os.path.join(d, f)
     for f in os.listdir(os.path.join(HARNESS, pkg)):
         if f.endswith(".go"):
             replace[os.path.join(REPO, "internal/verifh", pkg, f)] = os.path.join(HARNESS, pkg, f)
